@@ -151,3 +151,8 @@ pub fn campaign(ctx: &Ctx, target: &str, jobs: usize, runs: u64, max_len: usize)
         "thorough tier also runs {jobs} libFuzzer processes of target {target} ({runs} executions each, -seed derived from VERIF_SEED, fresh corpus seeded by the harness, -len_control=0, max_len {max_len}) with this property's oracle inside the target; inputs that reached new coverage are counted as distinct non-trivial cases"
     ));
 }
+
+/// Number of executions per libFuzzer job (`VH_FUZZ_RUNS` overrides; used for smoke tests).
+pub fn runs(default: u64) -> u64 {
+    std::env::var("VH_FUZZ_RUNS").ok().and_then(|s| s.parse().ok()).unwrap_or(default)
+}
